@@ -1,8 +1,10 @@
 import Genq.Props.C11
 open Genq.Http
+open Genq
 #print axioms C11_unescape_escape
 #print axioms C11_parse_inverts_encode
 #print axioms C11_get_url_decodes
 #print axioms C11_get_url_untouched_when_empty
 #print axioms C11_gate_on_emitted_documents
 #print axioms C11_gate_comment_bypass_witness
+#print axioms C11_client_skeleton_tie
